@@ -9,10 +9,14 @@ from concurrent.futures import ThreadPoolExecutor
 from . import common as C
 
 OPS = ["ret", "retd", "ans", "pan", "unm", "dfl", "once", "n", "al", "then"]
-PREFIXES = {          # shortest op prefix reaching each type state from each opener
-    "some": {"DR": [], "QRV": ["ret"], "Q": ["ans"], "QRE": ["ans", "once"], "QRA": ["ans", "al"], "DMR": ["ans", "once", "then"]},
-    "each": {"DMR": [], "Q": ["ans"], "QRE": ["ans", "once"], "QRA": ["ans", "al"]},
-    "next": {"DR": [], "QRV": ["ret"], "Q": ["ans"], "QRE": ["ans", "once"], "DMR": ["ans", "once", "then"]},
+_T = ["ans", "once", "then"]          # ... .then(): the states reached AFTER it carry the same ordering marker as before it
+PREFIXES = {          # shortest op prefix reaching each type state from each opener (and the same states once more behind a then())
+    "some": {"DR": [], "QRV": ["ret"], "Q": ["ans"], "QRE": ["ans", "once"], "QRA": ["ans", "al"], "DMR": list(_T),
+             "Q'": _T + ["ans"], "Q'r": _T + ["ret"], "QRE'": _T + ["ans", "once"], "QRA'": _T + ["ans", "al"], "DMR'": _T + _T},
+    "each": {"DMR": [], "Q": ["ans"], "QRE": ["ans", "once"], "QRA": ["ans", "al"],
+             "DMR'": list(_T), "Q'": _T + ["ans"], "QRE'": _T + ["ans", "once"], "QRA'": _T + ["ans", "al"]},
+    "next": {"DR": [], "QRV": ["ret"], "Q": ["ans"], "QRE": ["ans", "once"], "DMR": list(_T),
+             "Q'": _T + ["ans"], "Q'r": _T + ["ret"], "QRE'": _T + ["ans", "once"], "DMR'": _T + _T},
 }
 COQ_OP = {"ret": "OReturns 1", "retd": "OReturnsDefault", "ans": "OAnswers 1", "pan": "OPanics 1", "unm": "OUnmocked",
           "dfl": "ODefaultImpl", "once": "OOnce", "n": "ONTimes 2", "al": "OAtLeastTimes 1", "then": "OThen"}
